@@ -30,7 +30,8 @@ pub struct Scenario {
     pub beeper: bool,
     pub rate: u32,
     pub volume: u8,
-    pub tape: bool,
+    /// 0 none, 1 playing in real time, 2 inserted + stopped with fast loading enabled
+    pub tape: u8,
     pub events: Vec<(u8, In)>,
     pub frames: u8,
     pub seed: u64,
@@ -46,6 +47,8 @@ pub enum Driving {
     Max(u8),
     /// breakpoint stops after generated instruction counts, then resumption
     Breakpoints(Vec<u16>),
+    /// breakpoints on program counter values (ROM tape trap address, program addresses)
+    BreakAtPc(Vec<u16>),
     /// like PerFrame but audio never drained
     NeverDrain,
     /// like PerFrame but sound generation switched off
@@ -96,6 +99,9 @@ fn block() -> impl Strategy<Value = Vec<u8>> {
         // screen traffic
         2 => (any::<u8>(), 1u8..8).prop_map(|(lo, n)| vec![0x21, lo, 0x40, 0x11, lo, 0x50, 0x01, n, 0x00, 0xED, 0xB0]),
         1 => Just(vec![0xED, 0x5F, 0x32, 0x00, 0xB6]),
+        // call the ROM tape routine (served by the fast loader when a stopped tape is inserted):
+        // LD IX,0xB800 ; LD DE,5 ; LD A,0xFF ; SCF ; CALL 0x0556 ; LD (0xB7F0),A
+        2 => Just(vec![0xDD, 0x21, 0x00, 0xB8, 0x11, 0x05, 0x00, 0x3E, 0xFF, 0x37, 0xCD, 0x56, 0x05, 0x32, 0xF0, 0xB7]),
     ]
 }
 
@@ -106,7 +112,7 @@ pub fn scenario_strategy() -> impl Strategy<Value = Scenario> {
         0u16..600,
         any::<bool>(),
         (any::<bool>(), any::<bool>(), prop_oneof![Just(44100u32), Just(48000), Just(22050), Just(11025), 8000u32..96000], 0u8..=100),
-        any::<bool>(),
+        prop_oneof![2 => Just(0u8), 1 => Just(1), 2 => Just(2)],
         proptest::collection::vec(
             (
                 0u8..12,
@@ -200,10 +206,18 @@ pub fn build(sc: &Scenario, asset: AssetKind, sound_on: bool) -> Result<Emu, Str
     };
     r.map_err(|x| format!("initial snapshot through {:?}: {:?}", asset, x))?;
     let _ = OneByteOrSo { inner: MemAsset::new(vec![]) }.inner;
-    if sc.tape {
-        let t = tap::write(&[tap::block(0xFF, &[0xA5, 0x3C, 0x00, 0xFF, 0x81], true)]);
+    if sc.tape % 3 != 0 {
+        let t = tap::write(&[
+            tap::block(0xFF, &[0xA5, 0x3C, 0x00, 0xFF, 0x81], true),
+            tap::block(0xFF, &[1, 2, 3, 4, 5], true),
+            tap::block(0xFF, &[9, 8, 7, 6, 5], true),
+        ]);
         e.load_tape(Tape::Tap(DynAsset::new(MemAsset::new(t)))).map_err(|x| format!("{:?}", x))?;
-        e.play_tape();
+        if sc.tape % 3 == 1 {
+            e.play_tape();
+        } else {
+            e.set_fast_load(true);
+        }
     }
     Ok(e)
 }
@@ -301,6 +315,11 @@ pub fn drive(sc: &Scenario, e: &mut Emu, d: &Driving) -> Result<Trace, String> {
                     return Err("maximum-speed mode did not stop on the stopwatch".into());
                 }
             }
+            Driving::BreakAtPc(addrs) => {
+                e.set_speed(EmulationMode::FrameCount(1));
+                e.debug_interface().unwrap().mode = BpMode::At(addrs.clone());
+                e.emulate_frames(LONG).map_err(|x| format!("{:?}", x))?;
+            }
             Driving::Breakpoints(steps) => {
                 e.set_speed(EmulationMode::FrameCount(1));
                 let n = steps[bp_i % steps.len()].max(1) as u64;
@@ -391,6 +410,7 @@ pub fn check(c: &Case, rec: &mut Rec) -> Result<(), String> {
         Driving::Partition(_) => "partition",
         Driving::Max(_) => "max-speed",
         Driving::Breakpoints(_) => "breakpoints",
+        Driving::BreakAtPc(_) => "breakpoints-at-pc",
         Driving::NeverDrain => "never-drain",
         Driving::SoundOff => "sound-off",
     }));
@@ -411,7 +431,8 @@ pub fn case_strategy() -> impl Strategy<Value = Case> {
             2 => Just(Driving::PerFrame),
             3 => proptest::collection::vec(1u8..8, 1..=5).prop_map(Driving::Partition),
             3 => (0u8..3).prop_map(Driving::Max),
-            3 => proptest::collection::vec(prop_oneof![1u16..50, 50u16..5000, 5000u16..40000], 1..=6).prop_map(Driving::Breakpoints),
+            3 => proptest::collection::vec(prop_oneof![Just(1u16), 1u16..50, 50u16..5000, 5000u16..40000], 1..=6).prop_map(Driving::Breakpoints),
+            2 => proptest::collection::vec(prop_oneof![Just(0x056Bu16), Just(0x0556), Just(0x0038), Just(0x053F), 0x8000u16..0x8040, Just(0xA000)], 1..=4).prop_map(Driving::BreakAtPc),
             1 => Just(Driving::NeverDrain),
             1 => Just(Driving::SoundOff),
         ],
